@@ -206,6 +206,9 @@ impl<T> SocksRequest<T> {
         socket.write_u8(0).await.context("write")?;
         let (t, addr, port) = match &self.target {
             TargetAddress::DomainPort(domain, port) => {
+                if domain.len() > 255 {
+                    bail!("domain name too long for socks5: {} bytes", domain.len());
+                }
                 let mut x = Vec::from(domain.as_bytes());
                 x.insert(0, x.len() as u8);
                 (SOCKS_ATYP_DOMAIN, x, *port)
